@@ -852,7 +852,7 @@ func stageKeepsNoAtomicState(c *Ctx, r *Report, rule string, fileFilter func(pos
 				if within(fl, v.Pos()) {
 					return true // the stage's own local
 				}
-				if exemptFormatCache && v.Name() == "atomicFormat" && strings.HasSuffix(fi.Name, "smartDateParseWrapper") {
+				if exemptFormatCache && inlSuffix.ReplaceAllString(v.Name(), "") == "atomicFormat" && strings.HasSuffix(fi.Name, "smartDateParseWrapper") {
 					// one named symbol: the documented "cache" mode of {time ..} remembers the layout detected on
 					// the first parsable value. That is the helper's documented behaviour, not a deviation from
 					// the calendar (C18) or from the helper's documentation (C11); for C10 it is a finding.
